@@ -267,6 +267,20 @@ func (v *TimestampedStreamValue) UnmarshalBinary(data []byte) error {
 		return err
 	}
 	v.ObservedAtNanoseconds = t.ObservedAtNanoseconds
+	if t.StreamValue != nil && t.StreamValue.Type == LLOStreamValue_TimestampedStreamValue {
+		// Nested TimestampedStreamValues are never valid (see
+		// ValidateObservation). Decode exactly one more level so that callers
+		// can see and reject the nesting, but never recurse further: each
+		// level copies the remaining bytes, so unbounded recursion is
+		// quadratic in the input size.
+		inner := new(LLOTimestampedStreamValue)
+		if err := proto.Unmarshal(t.StreamValue.Value, inner); err != nil {
+			return err
+		}
+		if inner.StreamValue != nil && inner.StreamValue.Type == LLOStreamValue_TimestampedStreamValue {
+			return errors.New("TimestampedStreamValue nested too deeply")
+		}
+	}
 	sv, err := UnmarshalProtoStreamValue(t.StreamValue)
 	if err != nil {
 		return err
